@@ -351,7 +351,7 @@ theorem WF_step (cfg : Cfg) (ops : PolicyOps P) (p0 : P) (o : Oracle) (s : State
     · exact insertCore_wf cfg _ k _ _ true hw
   | remove k => exact removeKey_wf cfg ops _ k hw
   | invalidate k => exact removeKey_wf cfg ops _ k hw
-  | clear => exact (clearAll_inv cfg ops o _ hw).1
+  | clear => exact (clearAll_invD cfg ops o _ hw).1
   | advance d => exact Same.wf ⟨rfl, rfl, rfl⟩ hw
   | runMaintenance => exact runMaintenance_wf cfg ops o _ hw
   | metrics => exact flush_wf cfg ops o _ hw
